@@ -7,7 +7,7 @@ from .values import (Ref, NONE, Obj, Unsupported, FuncVal, BoundMethod, ClassVal
                      SORTS, spec_from_ctype, sortkey, coerce, is_z3, is_real, is_int, is_bool, is_str, is_ref, is_fp,
                      to_real, to_int, to_ref, to_str, to_bool_term, num_args, real_const, concrete)
 from .eng_core import State, Frame
-from .values import SymDict
+from .values import SymDict, alloc0
 
 R = z3.RealSort()
 UF1 = {n: z3.Function('m_' + n, R, R) for n in ('sqrt', 'exp', 'log', 'log10', 'sin', 'cos', 'tan', 'erf', 'asin', 'acos',
@@ -535,6 +535,8 @@ class CallMixin:
             f = z3.Function(fname if ext.get('exact_name') else '%s_%d' % (fname, len(terms)), *sorts, SORTS[key])
             term = f(*terms) if terms else z3.Const(fname, SORTS[key])
             res = self.wrap(term, rspec)
+            if isinstance(res, Obj):
+                st.pc.append(alloc0(res.ref))       # the value of a pure function is not an object allocated by the caller
             if ext.get('nonnull') and isinstance(res, Obj):
                 st.pc.append(res.ref != NONE)
             shape = ext.get('shape')
